@@ -131,9 +131,8 @@ class Module:
             if isinstance(n, ast.Try):
                 names = []
                 for h in n.handlers:
-                    if h.type is not None:
-                        names.append(ast.unparse(h.type))
-                if any('ImportError' in x or 'ModuleNotFoundError' in x for x in names):
+                    names.append(ast.unparse(h.type) if h.type is not None else 'BaseException')
+                if any('ImportError' in x or 'ModuleNotFoundError' in x or x in ('Exception', 'BaseException') for x in names):
                     for sub in n.body:
                         if isinstance(sub, (ast.Import, ast.ImportFrom)):
                             for a in sub.names:
